@@ -142,6 +142,24 @@ def gen(rng, tier):
         out.append(Case("pcr.rt %s %d" % (hx(old), v), kind="fidelity-u64", decides=False, nontrivial=False))
         v = rng.choice((rng.randrange(PTS_MAX, 1 << 64), (1 << 64) - 1 - rng.randrange(1000), PTS_MAX + rng.randrange(1000)))
         out.append(Case("pts.rt %s %d" % (hx(old), v), kind="fidelity-u64", decides=False, nontrivial=False))
+    # end to end: PTS/DTS carried in a PES header (ops and projections of the C11 group)
+    from gen import c11
+    pv = pts_values(rng, "quick")
+    for i, v1 in enumerate(pv[:: (7 if tier == "quick" else 1)]):
+        v2 = pv[(i * 11 + 5) % len(pv)]
+        sid = rng.choice((0xE0, 0xC0, 0xBD, 0x00, 0xFD))
+        extra = bytes(rng.randrange(256) for _ in range(rng.choice((0, 0, 3))))
+        hdr = bytes([0, 0, 1, sid, 0, 0, rng.choice((0x80, 0x84)), 0xC0 | rng.randrange(64), 10 + len(extra)])
+        b = hdr + bytes(rng.randrange(256) for _ in range(10)) + extra + bytes(rng.randrange(256) for _ in range(rng.randrange(0, 9)))
+        out.append(Case("pes.put %s %d %d" % (hx(b), v1, v2), kind="pes-insert-then-decode", theorem="C04_pes_pts_dts_readback",
+                        proj=c11.proj_put))
+        pk = bytearray(rng.randrange(256) for _ in range(188)); pk[0] = 0x47; pk[1] |= 0x40
+        if i % 2:
+            pk[3] &= 0xdf
+        else:
+            pk[3] |= 0x20; pk[4] = rng.randrange(0, 170)
+        out.append(Case("pes.withpes %s %d" % (hx(pk), v1), kind="withpes-readback", theorem="C04_with_pes_readback",
+                        proj=c11.proj_withpes))
     crosscheck_spec(out)
     return out
 
@@ -190,6 +208,16 @@ def oracle(c, real, model):
             want = "[0 %d]" % ref_pcr_decode(unhx(f[1]))
         elif f[0] in ("pts.get", "pes.time"):
             want = "[0 %d]" % ref_pts_decode(unhx(f[1]))
+        elif f[0] == "pes.put":
+            pr = c.proj(real)
+            if len(pr) != 2 or pr[1][3:7] != (1, int(f[2]), 1, int(f[3])):
+                return "PTS/DTS written into the PES header are not read back: observed %r, required PTS %s DTS %s" % (pr[1:], f[2], f[3])
+            return None
+        elif f[0] == "pes.withpes":
+            pr = c.proj(real)
+            if pr != ("hdr", 0, 1, 184, 1, int(f[2]), 0):
+                return "packet.WithPES then NewPESHeader: observed %r, required PTS %s" % (pr, f[2])
+            return None
         else:
             return None
     except Exception:
@@ -209,6 +237,8 @@ def shrink(c):
         for old2, v2 in ((bytes(n), v), (old, v & (v - 1)), (old, v >> 1), (old[:n], v)):
             if (old2, v2) != (old, v) and v2 >= 0:
                 yield Case("%s %s %d" % (f[0], hx(old2), v2), kind=c.kind, theorem=c.theorem)
+    elif f[0] in ("pes.put", "pes.withpes"):
+        return
     else:
         b = unhx(f[1])
         for i in range(len(b)):
@@ -242,6 +272,9 @@ def case_of_line(line, kind):
             dec = len(unhx(f[1])) >= 5 and int(f[2]) < PTS_MAX
         elif f[0] == "pcr.get":
             dec = len(unhx(f[1])) >= 6
+        elif f[0] in ("pes.put", "pes.withpes"):
+            from gen import c11
+            return Case(line, kind=kind, proj=c11.proj_put if f[0] == "pes.put" else c11.proj_withpes)
         else:
             dec = len(unhx(f[1])) >= 5
     except Exception:
